@@ -360,7 +360,14 @@ def queue_rules(R, P):
     clr = f.calls("aws_array_list_clear")
     okc = len(inval) == 1 and len(clr) == 2 and all(c in RU.reach_from(f, inval[0]) for c in clr) and f.is_const(_assignment_of(f, inval[0])["a"][1]) == SIZE_MAX
     loops = [b for b in f.blocks.values() if b.term == "for" and b.cond is not None]
-    okl = any("backpointer_count" in f.show(b.cond) or "backpointers" in f.show(b.cond) for b in loops)
+    def _len_of_handles(n_):
+        o_ = RU.origin(f, n_)
+        return o_ is not None and ((o_["k"] == "call" and o_.get("callee") == "aws_array_list_length" and argstr(f, o_, 0) == "queue->backpointers") or f.show(o_) == "queue->backpointers.length")
+    okl = False
+    for b in loops:
+        g_ = RU.cmp_norm(f, b.cond, True)
+        if g_ and g_[2] is not None and ((g_[1] == "<" and _len_of_handles(g_[2])) or (g_[1] == ">" and _len_of_handles(g_[0]))):
+            okl = True  # the loop runs over every slot of the handle array
     R.check(okc and okl, "INVALIDATE", "clear:marks-every-handle", "%s()" % f.name, "every registered handle is marked not-in-queue before both arrays are cleared",
             "clear does not mark every handle not-in-queue before clearing")
     f = fns["aws_priority_queue_node_init"]
@@ -384,7 +391,7 @@ def queue_rules(R, P):
         for c, p, b in RU.guards(f, rm[0], dom):
             g = RU.cmp_norm(f, c, p)
             if g:
-                gs.append((f.show(RU.uncast(f, g[0])), g[1], f.show(RU.uncast(f, g[2])) if g[2] is not None else None))
+                gs.append((f.show(RU.resolve(f, g[0])), g[1], f.show(RU.uncast(f, g[2])) if g[2] is not None else None))
         oki = any(l == "node->current_index" and op == "<" and r and "aws_array_list_length(&queue->container)" in r for l, op, r in gs)
         okd = any(l == "queue->backpointers.data" and op == "!=" for l, op, r in gs)
         R.check(oki, "GUARD", "remove:index-below-length", where(f, rm[0]), "handle index < current length (stale handles hold SIZE_MAX and are refused)",
